@@ -5,6 +5,7 @@ package c16
 import (
 	"bytes"
 	"fmt"
+	"go/build"
 	"go/parser"
 	"go/token"
 	"runtime"
@@ -17,6 +18,7 @@ import (
 	"github.com/dave/dst/decorator"
 	"github.com/dave/dst/decorator/resolver"
 	"github.com/dave/dst/decorator/resolver/goast"
+	"github.com/dave/dst/decorator/resolver/gobuild"
 	"github.com/dave/dst/decorator/resolver/guess"
 	"github.com/dave/dst/decorator/resolver/simple"
 	"pgregory.net/rapid"
@@ -35,8 +37,8 @@ type Case struct {
 	Goroutines int               `json:"goroutines"`
 	Rounds     int               `json:"rounds"`
 	Procs      int               `json:"gomaxprocs"` // of the process that generated the case (set per shard by the driver); informational
-	Shared     int               `json:"shared"` // 0: own resolvers; 1: one shared goast.New(); 2: one shared goast.WithResolver(simple map); all share the read-only restorer maps
-	Yields     []int             `json:"yields"` // Gosched padding pattern
+	Shared     int               `json:"shared"`     // 0: own resolvers; 1: one shared goast.New(); 2: one shared goast.WithResolver(simple map); 3: as 2, and one shared gobuild resolver (Hints + FindPackage hook) for restoring; all share the read-only restorer maps
+	Yields     []int             `json:"yields"`     // Gosched padding pattern
 }
 
 const rootPath = "example.com/root"
@@ -99,6 +101,36 @@ func check(t h.TB, c Case) {
 	if c.Shared == 1 {
 		rr = guess.WithMap(nm)
 	}
+	var hints, hintsBefore map[string]string
+	if c.Shared == 3 {
+		// one gobuild resolver for all goroutines: caller-owned Hints for half of the packages, the
+		// documented FindPackage hook (safe for concurrent use) for the rest
+		hints = map[string]string{}
+		i := 0
+		var paths []string
+		for p := range nm {
+			paths = append(paths, p)
+		}
+		sort.Strings(paths)
+		for _, p := range paths {
+			if i%2 == 0 {
+				hints[p] = nm[p]
+			}
+			i++
+		}
+		hintsBefore = map[string]string{}
+		for k, v := range hints {
+			hintsBefore[k] = v
+		}
+		gb := gobuild.WithHints("/nowhere", hints)
+		gb.FindPackage = func(ctxt *build.Context, importPath, fromDir string, mode build.ImportMode) (*build.Package, error) {
+			if n, ok := nm[importPath]; ok {
+				return &build.Package{Name: n}, nil
+			}
+			return nil, fmt.Errorf("package %s not in the generated universe", importPath)
+		}
+		rr = gb
+	}
 	// the same calls made alone, each with fresh resolvers; repeated to expose map-order dependence
 	alone := map[string]result{}
 	for _, n := range fn {
@@ -145,6 +177,9 @@ func check(t h.TB, c Case) {
 		}(g)
 	}
 	wg.Wait()
+	if hints != nil && fmt.Sprint(hints) != fmt.Sprint(hintsBefore) {
+		h.Fail(t, sub, c, "the shared, read-only Hints map of the gobuild resolver was modified: %d entries before, %d after", len(hintsBefore), len(hints))
+	}
 	if len(problems) > 0 {
 		sort.Strings(problems)
 		h.Fail(t, sub, c, "a concurrent call differs from the same call made alone (%d goroutines, shared resolver mode %d): %s", c.Goroutines, c.Shared, problems[0])
@@ -172,7 +207,7 @@ func genCase(t *rapid.T) (Case, bool) {
 	const sub = "Concurrent"
 	p := gen.GenProg(t, 1, 4)
 	c := Case{Libs: p.Libs, Files: p.RootSources(rootPath), Goroutines: rapid.IntRange(2, 12).Draw(t, "goroutines"), Rounds: rapid.IntRange(2, 12).Draw(t, "rounds"),
-		Procs: runtime.GOMAXPROCS(0), Shared: rapid.IntRange(0, 2).Draw(t, "shared")}
+		Procs: runtime.GOMAXPROCS(0), Shared: rapid.IntRange(0, 3).Draw(t, "shared")}
 	for i, n := 0, rapid.IntRange(0, 6).Draw(t, "nyields"); i < n; i++ {
 		c.Yields = append(c.Yields, rapid.IntRange(0, 3).Draw(t, "yield"))
 	}
